@@ -7,7 +7,9 @@ CONSTANTS Shape,        \* "pipe1".."pipe5", "pipe3x".."pipe5x" (alternating loc
           MaxPairs,     \* at most this many failing (job, phase) pairs
           MaxTimes,     \* each failing 1..MaxTimes times
           Kinds,        \* subset of {"soft", "fail_stop"}
-          PhasesUsed    \* subset of {"s","t","e"} in which failures are injected
+          PhasesUsed,   \* subset of {"s","t","e"} in which failures are injected
+          Limits,       \* set of max_retries values (each \leq Limit)
+          Managers      \* subset of BOOLEAN: FALSE = RollbackFailureManager, TRUE = DummyFailureManager
 
 Letters == <<"a", "b", "c", "d", "e">>
 PipeN == CASE Shape \in {"pipe1"} -> 1 [] Shape \in {"pipe2", "pipe2x"} -> 2 [] Shape \in {"pipe3", "pipe3x"} -> 3
@@ -33,7 +35,8 @@ MCSink == IF PipeN > 0 THEN Letters[PipeN] ELSE "c"
 PlanPairs == MCJobs \X PhasesUsed
 MCInit ==
   \E S \in {T \in SUBSET PlanPairs : Cardinality(T) <= MaxPairs} :
-    \E tm \in [S -> 1..MaxTimes], kd \in [S -> Kinds] :
+    \E tm \in [S -> 1..MaxTimes], kd \in [S -> Kinds], l \in Limits, m \in Managers :
+      /\ lim = l /\ dummy = m
       /\ plan = [k \in MCJobs \X PhSet |-> IF k \in S THEN tm[k] ELSE 0]
       /\ kind = [k \in MCJobs \X PhSet |-> IF k \in S THEN kd[k] ELSE "soft"]
       /\ budget = plan
@@ -44,10 +47,10 @@ MCInit ==
       /\ version = [x \in Jobs |-> 1]
       /\ attempts = [x \in Jobs |-> [ph \in PhSet |-> 0]]
       /\ status = "running" /\ hist = <<>>
-      /\ failedEver = {} /\ lostEver = {}
+      /\ failedEver = {} /\ lostEver = {} /\ stale = {}
 
 \* the observable schedule is history: hide it (and the other history variables) when only checking properties
-View == <<plan, budget, kind, stk, cur, gen, avail, prov, version, attempts, status>>
+View == <<lim, dummy, plan, budget, kind, stk, cur, gen, avail, prov, version, attempts, status>>
 GenBound == \A x \in Jobs : gen[x] < MaxGen
 
 \* ---- emission (generation configs, -workers 1): one JSON line per terminal state
@@ -55,10 +58,11 @@ PlanJ == [k \in {<<x, ph>> \in Jobs \X PhSet : plan[<<x, ph>>] > 0} |-> <<plan[k
 PairKey(k) == k[1] \o "|" \o k[2]
 PlanRec == LET ks == {k \in Jobs \X PhSet : plan[k] > 0}
            IN [s \in {PairKey(k) : k \in ks} |-> LET k == CHOOSE k \in ks : PairKey(k) = s IN <<plan[k], kind[k]>>]
-Emit == PrintT(ToJson([shape |-> Shape, limit |-> Limit, dummy |-> Dummy, plan |-> PlanRec, hist |-> hist,
+Emit == PrintT(ToJson([shape |-> Shape, limit |-> lim, dummy |-> dummy, plan |-> PlanRec, hist |-> hist,
                        outcome |-> status, attempts |-> attempts, version |-> version, gen |-> gen,
-                       rolled |-> lostEver, failed |-> failedEver]))
+                       rolled |-> lostEver, failed |-> failedEver, stale |-> stale]))
 GenFinalize == /\ status \in {"done", "raised"} /\ Emit /\ Finalize
 GenNext == (\E x \in Jobs : RunPhase(x)) \/ GenFinalize
 MCSpec == MCInit /\ [][Next]_vars /\ WF_vars(Next)
+GenSpec == MCInit /\ [][GenNext]_vars /\ WF_vars(GenNext)     \* properties, liveness and emission in one run
 =============================================================================
